@@ -3,14 +3,14 @@
 package sm2
 
 import (
-	"time"
-	crand "crypto/rand"
 	"bytes"
+	crand "crypto/rand"
 	"fmt"
 	"math/big"
 	"runtime"
 	"sync"
 	"testing"
+	"time"
 
 	"github.com/bilibili/smgo/sm3"
 	"github.com/bilibili/smgo/zzverif/hk"
